@@ -237,6 +237,9 @@ func vfScript(sc int) []vfStep {
 	case 9:
 		// two segments in quick succession (in-memory merge by the persister), then an overwrite of the first
 		return []vfStep{{op: 0, id: 1, payload: p()}, {op: 0, id: 2, payload: p()}, {op: 0, id: 1, payload: p()}}
+	case 10:
+		// a two-document segment loses its first document, then another segment follows it
+		return []vfStep{{op: 2, id: 1, payload: p(), payload2: p()}, {op: 1, id: 1}, {op: 0, id: 3, payload: p()}}
 	case 8:
 		// two-document segment; delete one; then delete the other and add a third in one batch
 		return []vfStep{{op: 2, id: 1, payload: p(), payload2: p()}, {op: 1, id: 1}, {op: 3, id: 2, payload: p()}}
@@ -340,7 +343,7 @@ func VF_C02_ConcurrentBatchesDurable(nw int, order int) {
 // never a mixture, and to one that contains every batch whose
 // persisted-callback has reported success.
 //
-// vf:harness property=C03 cases=sc:8..9;order:0..1;pace:0,21 cases.thorough=sc:4..9;order:0..2;pace:0,4,13,21,26 sched=1 schedbudget=1 schedbudget.thorough=2 preempt=0 preempt.thorough=1 schedtotal=1 schedtotal.thorough=2 goinline=1 chanslack=8 deadlock=violation clock=zero maxpaths=400000 replay=model-only diff=off
+// vf:harness property=C03 cases=sc:8..10;order:0..1;pace:0,21 cases.thorough=sc:4..10;order:0..2;pace:0,4,13,21,26 sched=1 schedbudget=1 schedbudget.thorough=2 preempt=0 preempt.thorough=1 schedtotal=1 schedtotal.thorough=2 goinline=1 chanslack=8 deadlock=violation clock=zero maxpaths=400000 replay=model-only diff=off
 // vf:replace hash/crc32.Update vfChecksumUpdate
 // vf:replace io.CopyN vfCopyN
 // vf:replace (*github.com/RoaringBitmap/roaring.Bitmap).ReadFrom vfRoaringReadFrom
@@ -380,4 +383,21 @@ func VF_C03_LiveCrashImagesArePrefixes(sc int, order int, pace int) {
 	}
 	vfAssert(w.Close() == nil, "Close succeeds")
 	wd.crashAt(wd.cloneDir("", 0), "reopen after Close")
+}
+
+// C08 clause "built, persisted and reopened gives the same documents": the
+// reopened directory (through the real OpenReader and loadSnapshot) equals the
+// live index for layouts that have a segment with a pending deletion in front
+// of another segment. Same run as the C03 harness above, registered under C08 so
+// that C08's own check reports a reopen that disagrees with the live index.
+//
+// vf:harness property=C08 cases=sc:10;order:0..1;pace:21 cases.thorough=sc:6..10;order:0..1;pace:21,26 sched=1 schedbudget=1 preempt=0 schedtotal=1 goinline=1 chanslack=8 deadlock=violation clock=zero maxpaths=400000 replay=model-only diff=off
+// vf:replace hash/crc32.Update vfChecksumUpdate
+// vf:replace io.CopyN vfCopyN
+// vf:replace (*github.com/RoaringBitmap/roaring.Bitmap).ReadFrom vfRoaringReadFrom
+// vf:replace (*github.com/RoaringBitmap/roaring.Bitmap).ToBytes vfRoaringToBytes
+// vf:bounds as VF_C03_LiveCrashImagesArePrefixes, restricted to the histories with multi-document segments and pending deletions
+// vf:assume as VF_C02_AckedBatchIsDurable; model segments stand for ice (segment file formats are outside)
+func VF_C08_ReopenedEqualsLive(sc int, order int, pace int) {
+	VF_C03_LiveCrashImagesArePrefixes(sc, order, pace)
 }
